@@ -218,6 +218,9 @@ func TestCheck(t *testing.T) {
 			seen[v.Key] = true
 			confirmAndReport(r, v)
 		}
+		for _, smp := range sum.Samples {
+			r.Sample(map[string]any{"explored_schedule": smp})
+		}
 		// a sample deviating schedule
 		if sum.Execs > 1 {
 			r.Sample(map[string]any{"scenario": j.Scenario, "explored_levels": sum.ByLevel,
